@@ -2,8 +2,17 @@
 """prints the prompt for an independent seeding sub-agent (property text only, nothing from /verif)"""
 import json, sys
 pid, n = sys.argv[1], int(sys.argv[2]) if len(sys.argv) > 2 else 4
+round_ = sys.argv[3] if len(sys.argv) > 3 else ""        # e.g. "r2": second round, told what was tried before
+import glob, os
+tried = []
+if round_:
+    for f in sorted(glob.glob(f'/verif/seeded/{pid}-*/meta.json')):
+        try:
+            tried.append("- " + json.load(open(f)).get("summary", "")[:260].replace("\n", " "))
+        except Exception:
+            pass
 p = next(json.loads(l) for l in open('/verif/properties.jsonl') if json.loads(l)['id'] == pid)
-low = pid.lower()
+low = pid.lower() + (("_" + round_) if round_ else "")
 print(f"""You are testing how well a verification effort can detect subtle regressions in a Go library. You have your own scratch git worktree of the library at /tmp/seed_{low} (a checkout of wizenheimer/comet, an in-process hybrid vector / text / metadata store; module github.com/wizenheimer/comet). Work ONLY inside /tmp/seed_{low} and /tmp/seed_{low}_out (create it). Do not look at or touch /verif or /repo. Go commands need this environment: `GOFLAGS=-mod=mod GOPROXY=off` (leave GOSUMDB and GOTOOLCHAIN unset; there is no network). The existing test suite runs with `cd /tmp/seed_{low} && GOFLAGS=-mod=mod GOPROXY=off go test -vet=off -count=1 ./...` (about 10 s). Two existing tests are flaky on the unchanged tree (TestRerankerWithFlatIndex, TestPersistentHybridIndex_CompactionThreshold): ignore failures of those two only. Files named verif_*.go and calls to verifPoint / verifCapture are inert test hooks (build tag `verif`): leave them alone.
 
 Here is a semantic property the library should satisfy:
@@ -17,3 +26,5 @@ For each change i = 1..{n} write to /tmp/seed_{low}_out/m<i>/:
  - demo_test.go : a Go test file (package comet, droppable into the repository root as zz_demo_test.go) with ONE test that FAILS with the change applied and PASSES on the clean tree, demonstrating the property violation through the public API;
  - meta.json : {{"property":"{pid}","summary":"…what the change does…","needs":"…what specific input / sequence / configuration it needs in order to manifest…","files":[…]}}.
 Verify each yourself: with the patch applied, (a) `go build ./...` and `go build -tags verif ./...` ok, (b) the existing suite passes (without your demo test; the two flaky tests excepted), (c) the demo test fails; on the clean tree the demo test passes. Never use `git stash` (the stash is shared with other worktrees of the same repository that other people are using right now): keep your changes as diff files and use `git apply` / `git checkout -- .`. Leave the worktree clean at the end. Final answer: {n} lines, one per change.""")
+if tried:
+    print("\nEarlier changes of this kind have already been made by other people; do NOT repeat these ideas or close variants of them — look for different mechanisms, different functions, different clauses of the property:\n" + "\n".join(tried))
